@@ -14,7 +14,7 @@ ENTRY = {
             'and random interior points, outside-box points; distinct by hash of exact inputs',
     'partial': ['curves: round trip accuracy after the Newton step is validated numerically (proved: the filter never loses an on-curve point in '
                 'exact arithmetic - filter_complete -, the pre-Newton estimate is within the spread cap, the Newton step fixes the true '
-                'parameter, results lie in [0,1], off-box => None); binary64 rounding inside the filter is outside the model (finding F-F); Props/C10Rounding: one curve Newton step in rounded arithmetic is within ((1+u)^(6n+8+dim)-1)(|s| + (numAbs + |num| denAbs/|den|)/m) of the exact step under an explicit margin m on the denominator |B'|^2 - the script's allowance 2^-44/reg + 2^-46 follows from it when the hodograph does not cancel',
+                'parameter, results lie in [0,1], off-box => None); binary64 rounding inside the filter is outside the model (finding F-F); Props/C10Rounding: one curve Newton step in rounded arithmetic is within ((1+u)^(6n+8+dim)-1)(|s| + (numAbs + |num| denAbs/|den|)/m) of the exact step under an explicit margin m on the denominator |dB|^2 - the allowance of the script 2^-44/reg + 2^-46 follows from it when the hodograph does not cancel',
                 'triangles (Props/C10Triangle, model Model/LocateTri with Python and Fortran variants): the convex-hull property of triangle '
                 'evaluation, the filter never loses a point of the surface (tri_filter_complete, via the C09 subdivision theorems), on-surface '
                 '=> never None and off-box => None in exact arithmetic, the candidate bookkeeping (centroid, signed width) encodes exactly the '
